@@ -44,6 +44,37 @@ CHECKS = {
             "87 one-hole contexts x 10 values x 6-10 producers (6237 programs)", "DESIGN.md 6 (C16)"),
  "C17": sem("FamMath", "abs/sqrt/round exactly; sin/cos (4 ulp), tan (8 ulp), pow (64 ulp) relative to fdlibm on the moderate domain, exact where every correct implementation agrees; clock() against the harness clock.",
             "17 built-ins x 0..3 (quick) / 4 (thorough) arguments x 8 kinds; 30 boundary values + 200 / 20000 random doubles per unary function; 17x17 pow grid; 89 min/max lists", "DESIGN.md 4.3, 6 (C17)"),
+ "C01": dict(
+   technique="TLA+ specs BornoSyntax (ladder relation Canon, Yield, MinParen/FullParen/Strip) and BornoGrammar (predictive recogniser) checked against each other by TLC on every bounded tree / token sequence; trees and accepted sequences replayed into the real parser and compared node by node",
+   text="For every tree of the family TLC proves Canon(MinParen t), Strip(MinParen t) = Strip(FullParen t) = t and that the recogniser parses both writings back to exactly those trees; for every accepted token sequence up to the length bound it proves Canon(tree) and Yield(tree) = tokens. "
+        "Every tree (minimal and full parenthesisation) and every accepted sequence is then parsed by the real parser rebuilt from /repo and the abstracted AST compared node by node (Grouping included); both writings of every expression are also evaluated and compared.",
+   note=TB + "bounds: depth-2 trees over all 21 binary-like operators, prefix/postfix combinations (quick); depth-3 over one representative per level and statement nesting depth 3 (thorough); token sequences of <= 4 / 5 tokens over a 38-token alphabet.",
+   ref="DESIGN.md 4.2, 6 (C01)"),
+ "C08": dict(
+   technique="TLA+ specs BornoLexDecl + BornoGrammar (predictive recogniser with the valid-prefix property) explored by TLC over every viable token prefix and every bounded text; every prefix, every one-token extension and every text replayed into the real front end (accept/reject, line of first diagnostic), rejected texts also through the executable",
+   text="TLC visits every viable prefix (one state each), emits whether it is a complete program and which tokens keep it viable; the harness extends every prefix with all 38 tokens and end of input and requires the real lexer+parser to accept exactly the accepted ones, to report the first diagnostic on the line of the first offending token, never to crash or hang; "
+        "character level: every text of the fragment bound judged by the declarative lexer and the recogniser; schemata up to nesting depth 10 000, parameter limits, reserved names, assignment targets; a sample of rejected texts behind a printing statement through the executable (nothing runs, exit 65).",
+   note=TB + "domain exclusions as stated in the property (var declarations spanning lines, trailing comma in object literals); bounds: prefixes <= 4 / 5 tokens, texts <= 3 / 4 fragments.",
+   ref="DESIGN.md 4.2, 6 (C08)"),
+ "C10": dict(
+   technique="TLA+ spec BornoLex with Host!ParseLit (BigDecimal correct rounding) model-checked by TLC on every short literal in both scripts, random long literals and exact halfway cases; expected tokens replayed into the real scanner and evaluator; every code point through the transliteration helper",
+   text="Every digit/point string up to the length bound in every script mixture, seeded random literals of up to 800 digits, exact halfway cases (below / at / above) between adjacent doubles, subnormal and overflow thresholds: the scanner machine is checked against the declarative tokenisation in TLC (script invariance, point-needs-digit) and every text is replayed: token value bit-exact, overflow diagnosed, and `print literal` shows a numeral denoting the value.",
+   note=TB + "JVM BigDecimal.doubleValue as the independent correctly-rounding oracle; bounds: strings <= 3 / 4 characters over 21 characters, 500 / 6000 random literals and halfway cases.",
+   ref="DESIGN.md 4.1, 6 (C10)"),
+ "C13": sem("FamObjects, FamOrder, FamCalls, FamWild (+ shipped examples)", "Each program is run 40 / 300 times in one process and 24 / 200 times in fresh processes; all observations must be identical and equal to the specification's single behaviour (TLC: maximal out-degree 1). Go's map randomisation is sampled, not enumerated.",
+            "about 150 (quick) / 700 (thorough) programs + 8 examples", "DESIGN.md 6 (C13)"),
+ "C18": sem("FamControl, FamCalls, FamFaults, FamArrays, FamObjects, FamOrder, FamScope (+ shipped examples)", "Each program is transformed by the six families (layout, digit script, synonyms, renaming, parentheses, dead code), alone and combined, and must still behave as the specification prescribes for the original.",
+            "about 1000 (quick) / 8000 (thorough) programs x 7 transformed variants", "DESIGN.md 6 (C18)"),
+ "C19": dict(
+   technique="TLA+ spec BornoProc (arguments, file, error flags, exit status, REPL loop) model-checked by TLC and proved inductive with Apalache; every terminal state instantiated with concrete command lines; BornoSem family FamInput for stdin/stdout replayed through the executable",
+   text="BornoProc's invariants (ExitClassifies, NothingRunsOnStaticError, UsageOnlyOnMisuse, FlagsClearAtPrompt, ReplLineIndependence) hold in every reachable state (TLC) and IndInv is inductive for sessions of any length (Apalache); each abstract run is replayed with several concrete argument lists, file names and programs of the outcome class; FamInput checks that each input call consumes exactly one line (trimmed), with and without a final newline, and that diagnostics go to stderr only.",
+   note=TB + "Apalache 0.58; checks run as root (unreadable = missing / directory / path through a file); exit-64 messages accepted on either stream.",
+   ref="DESIGN.md 4.5, 6 (C19)"),
+ "C20": dict(
+   technique="TLA+ pipeline BornoFront (declarative lexer + recogniser) + BornoSem in interactive mode computes the response of every pool line in a fresh session; BornoProc's REPL loop model-checked (TLC) and proved inductive (Apalache); every bounded sequence of lines replayed through the real REPL",
+   text="A line's response is defined by the specification as that of a fresh session; the harness runs every sequence of <= 2 / 3 lines over a 43-line pool (and thousands of random longer sessions) through the executable and requires, at every position, exactly that response on stdout between prompts, the diagnostics in order on stderr, and exit status 0 at end of input.",
+   note=TB + "stdout/stderr are matched separately (their interleaving is not observable); the prompt is learned from an empty session.",
+   ref="DESIGN.md 4.5, 6 (C20)"),
 }
 NOT_YET = "check not built yet in this round (see DESIGN.md 11 for the build order)"
 props = [json.loads(l) for l in open(os.path.join(ROOT, "properties.jsonl"))]
